@@ -25,11 +25,28 @@ def oe : Str := [111, 101]
 def md : Str := [109, 100]
 def projA : Str := [112, 114, 111, 106, 45, 97]                                  -- "proj-a"
 
+/-! The witness histories as data: (what ran before, the invocation under test).  `histories` is what the model driver prints
+    for `witness C17` and what harness/c17.py replays on the implementation — the very terms the theorems below are about. -/
+def hAppend : List Ev × Inv := ([.inv (soupA 1), .newProcess], soupA 1)
+def hFixLeak : List Ev × Inv := ([.inv (genA 1)], genB 2)
+def hFixRepeat : List Ev × Inv := ([.inv (genA 1)], (genA 1).retarget (.out 2))
+def hFieldDef : List Ev × Inv := ([.inv (soupA 1)], soupC 2)
+def hFieldDef2 : List Ev × Inv := ([.inv (soupA 1), .newProcess], soupC 2)
+def hFieldDefAlone : List Ev × Inv := ([], soupC 2)
+def hNewProject : List Ev × Inv :=
+  ([.inv (.newProject 1 projA [(oe, .ouch)]), .newProcess], .newProject 1 projA [(oe, .ouch), (md, .itch)])
+
+def histories : List (String × List Ev) :=
+  [("witness-append-mode", hAppend), ("witness-fix-state-leak", hFixLeak), ("witness-fix-not-repeatable", hFixRepeat),
+   ("witness-fielddef-leak", hFieldDef), ("witness-fielddef-separate-process", hFieldDef2),
+   ("witness-fielddef-alone", hFieldDefAlone), ("witness-new-project-rerun", hNewProject)].map
+    fun x => (x.1, x.2.1 ++ [.inv x.2.2])
+
 /-- **append mode** (clause 2).  The same spec generated twice into one directory — even in two separate processes, so no
     process state is involved: the module file holds the module twice, `__init__.py` its line twice, and importing the
     package raises DuplicateMessageException; a fresh run gives one chunk and imports. -/
 theorem C17_witness_append_mode :
-    let w := run actual w0 [.inv (soupA 1), .newProcess]
+    let w := run actual w0 hAppend.1
     (invoke actual w0 (soupA 1)).2 = .ok ()
     ∧ dirOnly w.fs (.out 1) (targetNames (soupA 1)) = true
     ∧ read (invoke actual w (soupA 1)).1.fs (.out 1, modX)
@@ -41,8 +58,8 @@ theorem C17_witness_append_mode :
 
 /-- the conclusion of `C17_regenerate_in_place` fails for `actual` -/
 theorem C17_witness_regenerate_in_place_false :
-    ¬ (dirView (invoke actual (run actual w0 [.inv (soupA 1), .newProcess]) (soupA 1)).1.fs (soupA 1).dir
-        = dirView (invoke actual w0 (soupA 1)).1.fs (soupA 1).dir) := by
+    ¬ (dirView (invoke actual (run actual w0 hAppend.1) hAppend.2).1.fs hAppend.2.dir
+        = dirView (invoke actual w0 hAppend.2).1.fs hAppend.2.dir) := by
   intro h
   have := congrFun h modX
   revert this
@@ -52,7 +69,7 @@ theorem C17_witness_regenerate_in_place_false :
     directory: B's groups module contains A's three group classes (A's nested group was even given two), B's own group is
     `NoG1_2` instead of `NoG1_1`, and the package does not import (`fields` has no `F2`); alone B imports. -/
 theorem C17_witness_fix_state_leak :
-    let w := run actual w0 [.inv (genA 1)]
+    let w := run actual w0 hFixLeak.1
     (invoke actual w (genB 2)).2 = .ok ()
     ∧ dirOnly w.fs (.out 2) [] = true
     ∧ read (invoke actual w (genB 2)).1.fs (.out 2, groupsG)
@@ -65,8 +82,8 @@ theorem C17_witness_fix_state_leak :
 /-- the conclusion of `C17_no_leak_between_specs` (second part) fails for `actual` -/
 theorem C17_witness_no_leak_false :
     ¬ (∀ n, n ∈ targetNames (genB 2) →
-        read (invoke actual (run actual w0 [.inv (genA 1)]) (genB 2)).1.fs ((genB 2).dir, n)
-          = read (invoke actual w0 (genB 2)).1.fs ((genB 2).dir, n)) := by
+        read (invoke actual (run actual w0 hFixLeak.1) hFixLeak.2).1.fs (hFixLeak.2.dir, n)
+          = read (invoke actual w0 hFixLeak.2).1.fs (hFixLeak.2.dir, n)) := by
   intro h
   have := h groupsG (by decide)
   revert this
@@ -75,9 +92,9 @@ theorem C17_witness_no_leak_false :
 /-- the conclusion of `C17_repeatable` fails for `actual`: the SAME dictionary generated twice in one process into two
     empty directories gives different directories (the second one has A's classes twice and `NoG1_2`) -/
 theorem C17_witness_repeatable_false :
-    dirOnly (run actual w0 [.inv (genA 1)]).fs (.out 2) [] = true
+    dirOnly (run actual w0 hFixRepeat.1).fs (.out 2) [] = true
     ∧ ¬ (dirView (invoke actual w0 ((genA 1).retarget (.out 1))).1.fs (.out 1)
-          = dirView (invoke actual (run actual w0 [.inv (genA 1)]) ((genA 1).retarget (.out 2))).1.fs (.out 2)) := by
+          = dirView (invoke actual (run actual w0 hFixRepeat.1) hFixRepeat.2).1.fs (.out 2)) := by
   refine ⟨by decide, ?_⟩
   intro h
   have := congrFun h groupsG
@@ -87,21 +104,21 @@ theorem C17_witness_repeatable_false :
 /-- **`FieldDef.Definitions`** (clause 3).  A spec without `fielddef-root` that references `def="f1"` fails alone with
     KeyError; after spec A in the same process it "succeeds", built from A's definition of `f1` (datatype 0). -/
 theorem C17_witness_fielddef_leak :
-    (invoke actual w0 (soupC 2)).2 = .error .key
-    ∧ (invoke actual (run actual w0 [.inv (soupA 1)]) (soupC 2)).2 = .ok ()
-    ∧ read (invoke actual (run actual w0 [.inv (soupA 1)]) (soupC 2)).1.fs (.out 2, [111, 117, 99, 104, 95, 121, 46, 112, 121])
+    (invoke actual (run actual w0 hFieldDefAlone.1) hFieldDefAlone.2).2 = .error .key
+    ∧ (invoke actual (run actual w0 hFieldDef.1) hFieldDef.2).2 = .ok ()
+    ∧ read (invoke actual (run actual w0 hFieldDef.1) hFieldDef.2).1.fs (.out 2, [111, 117, 99, 104, 95, 121, 46, 112, 121])
         = some [.soupModule .ouch [121] 2 [65] [0]]
     -- in a separate process the leak is gone
-    ∧ (invoke actual (run actual w0 [.inv (soupA 1), .newProcess]) (soupC 2)).2 = .error .key := by decide
+    ∧ (invoke actual (run actual w0 hFieldDef2.1) hFieldDef2.2).2 = .error .key := by decide
 
 /-- the conclusion of `C17_outcome_depends_on_spec_only` fails for `actual` -/
 theorem C17_witness_outcome_false :
-    ¬ ((invoke actual (run actual w0 [.inv (soupA 1)]) (soupC 2)).2 = (invoke actual w0 (soupC 2)).2) := by decide
+    ¬ ((invoke actual (run actual w0 hFieldDef.1) hFieldDef.2).2 = (invoke actual w0 hFieldDef.2).2) := by decide
 
 /-- **`new_project` run again** to add an application: `pyproject.toml` and `tox.ini` are the concatenation of two
     renderings (two `[project]` tables, two `[tox]` sections: neither parses). -/
 theorem C17_witness_new_project_rerun :
-    let w := run actual w0 [.inv (.newProject 1 projA [(oe, .ouch)]), .newProcess, .inv (.newProject 1 projA [(oe, .ouch), (md, .itch)])]
+    let w := (invoke actual (run actual w0 hNewProject.1) hNewProject.2).1
     read w.fs (.proj 1 projA, sTox) = some [.tox (srcName projA) [(oe, .ouch)], .tox (srcName projA) [(oe, .ouch), (md, .itch)]]
     ∧ read w.fs (.proj 1 projA, sPyproject) = some [.pyproject projA, .pyproject projA]
     ∧ configValid (read w.fs (.proj 1 projA, sTox)) = false
